@@ -7,7 +7,8 @@
    `key_vals_ty t d` are the values of the key members of d (depth first through non-key
    nested structures); `key_type_ok t`: the key members lie in the supported fragment (no
    optional / MUTABLE / nested-collection key members, ids unique inside every structure);
-   `key_ids_unique t`: no two members of the flattened key holder share a member id;
+   `key_ids_unique t`: no two members of the flattened key holder share a member id (a
+   theorem since the key holder numbers its members afresh, fix c1628d5);
    `key_ok t d`: the key members hold in-range, in-bound values. *)
 From DustDDS Require Import Base.Machine KeyHash.Md5Model KeyHash.KeyModel KeyHash.KeyProofs
   KeyHash.KeyMainProofs KeyHash.KeyReaderProofs KeyHash.KeyTotalProofs.
@@ -20,41 +21,34 @@ Theorem C11_equal_keys_equal_handles :
 Proof. exact handle_eq_of_key_eq. Qed.
 
 (* => : two samples with the same handle have equal key members, unless their two
-   (different) serialized keys are an explicit MD5 coincidence; outside the collision
-   class *)
+   (different) serialized keys are an explicit MD5 coincidence *)
 Theorem C11_equal_handles_equal_keys_unless_md5_coincidence :
   forall t d1 d2 h,
-    key_type_ok t = true -> key_ids_unique t = true ->
-    key_ok t d1 = true -> key_ok t d2 = true ->
+    key_type_ok t = true -> key_ok t d1 = true -> key_ok t d2 = true ->
     instance_handle t d1 = Ok h -> instance_handle t d2 = Ok h ->
     key_vals_ty t d1 = key_vals_ty t d2 \/
     exists b1 b2, key_bytes t d1 = Ok b1 /\ key_bytes t d2 = Ok b2 /\ md5_coincidence b1 b2.
-Proof. exact key_eq_of_handle_eq. Qed.
+Proof. exact key_eq_of_handle_eq'. Qed.
 
 (* the two directions together: barring an MD5 coincidence of the two serialized keys,
-   same handle <-> same key members (outside the collision class) *)
+   same handle <-> same key members *)
 Theorem C11_same_handle_iff_same_key :
   forall t d1 d2,
-    key_type_ok t = true -> key_ids_unique t = true ->
-    key_ok t d1 = true -> key_ok t d2 = true ->
+    key_type_ok t = true -> key_ok t d1 = true -> key_ok t d2 = true ->
     ~ (exists b1 b2, key_bytes t d1 = Ok b1 /\ key_bytes t d2 = Ok b2 /\ md5_coincidence b1 b2) ->
     (instance_handle t d1 = instance_handle t d2 <-> key_vals_ty t d1 = key_vals_ty t d2).
-Proof. exact same_handle_iff_same_key. Qed.
+Proof. exact same_handle_iff_same_key'. Qed.
 
 (* every well-formed key is assigned a 16-byte handle *)
 Theorem C11_wellformed_key_gets_a_handle :
-  forall t d, key_type_ok t = true -> key_ids_unique t = true -> key_ok t d = true ->
+  forall t d, key_type_ok t = true -> key_ok t d = true ->
     exists h, instance_handle t d = Ok h /\ length h = 16%nat.
-Proof. exact handle_total. Qed.
+Proof. exact handle_total'. Qed.
 
-(* inside the collision class => is false: recorded finding C11-key-id-collision *)
-Theorem C11_id_collision_class_refutes_equal_handles_equal_keys :
-  exists t d1 d2 h,
-    key_type_ok t = true /\ key_ids_unique t = false /\
-    key_ok t d1 = true /\ key_ok t d2 = true /\
-    instance_handle t d1 = Ok h /\ instance_handle t d2 = Ok h /\
-    key_vals_ty t d1 <> key_vals_ty t d2.
-Proof. exact key_eq_of_handle_eq_refuted. Qed.
+(* the flattened key holder never has two members with the same id: the former class of
+   finding C11-key-id-collision (fixed by c1628d5) is empty *)
+Theorem C11_key_holder_ids_never_collide : forall t, key_ids_unique t = true.
+Proof. exact key_ids_unique_always. Qed.
 
 (* reader side, serialized key without key hash: deriving the handle from the decoded key
    holder gives the writer's handle (every type, collisions included) *)
@@ -113,7 +107,7 @@ Print Assumptions C11_equal_keys_equal_handles.
 Print Assumptions C11_equal_handles_equal_keys_unless_md5_coincidence.
 Print Assumptions C11_same_handle_iff_same_key.
 Print Assumptions C11_wellformed_key_gets_a_handle.
-Print Assumptions C11_id_collision_class_refutes_equal_handles_equal_keys.
+Print Assumptions C11_key_holder_ids_never_collide.
 Print Assumptions C11_reader_derivation_from_key_equals_writer_handle.
 Print Assumptions C11_writer_and_reader_agree.
 Print Assumptions C11_oracle_sound.
